@@ -241,6 +241,20 @@ Proof.
     apply In_sort_by. apply in_map_iff. exists q. auto.
 Qed.
 
+(* histories of entry points (event handlers, assume/forget, Plugin.Reserve / Unreserve of reserve
+   pods) are histories of cache operations *)
+Lemma hrun_flat : forall hs c, hrun c hs = crun c (flat_map lower hs).
+Proof.
+  induction hs as [|h t IH]; intros c; [reflexivity|].
+  cbn [hrun fold_left flat_map]. rewrite <- crun_app. apply IH.
+Qed.
+
+Lemma index_invariants_entry_points hs :
+  all_along node_stable_op init_cache (flat_map lower hs) = true ->
+  index_sound (hrun init_cache hs) /\ index_complete (hrun init_cache hs)
+  /\ nomination_ok (hrun init_cache hs).
+Proof. intros H. rewrite hrun_flat. apply index_invariants_stable_histories, H. Qed.
+
 (* every step code of the model's own trace is 0 *)
 Definition all_zero (l : list Z) : bool := forallb (fun z => z =? 0) l.
 
